@@ -164,6 +164,30 @@ static void run_program(Rng& r) {
       }
     }
   }
+  // assignment between leaves of (usually) different map sizes: the target must take over everything, incl. lg_max_map_size
+  if (sk.size() >= 2 && r.chance(0.5)) {
+    const size_t a = r.below(sk.size()); size_t b = r.below(sk.size());
+    if (a != b) {
+      if (md[a].lg_max != md[b].lg_max) count("assign_across_map_sizes");
+      switch (r.below(3)) {
+        case 0: *sk[a] = *sk[b]; count("copy_assign"); break;
+        case 1: { SK tmp(*sk[b]); *sk[a] = std::move(tmp); count("move_assign"); break; }
+        default: { SK tmp(*sk[b]); sk[a].reset(new SK(std::move(tmp))); count("move_construct"); break; }
+      }
+      md[a] = md[b];
+      observe(*sk[a], md[a], universe, r, "assignment", K + "assign|");
+      observe(*sk[b], md[b], universe, r, "assignment-source", K + "assign-source|");
+      // the assignee keeps behaving like its source: same further updates on both
+      for (int i = 0; i < 200; ++i) {
+        T it = ItemGen<T>::make(r.below(domain)); W w = W(1 + r.below(5));
+        sk[a]->update(it, w); md[a].add(it, w); sk[b]->update(it, w); md[b].add(it, w);
+      }
+      observe(*sk[a], md[a], universe, r, "updates-after-assignment", K + "assign|");
+      observe(*sk[b], md[b], universe, r, "updates-after-assignment-source", K + "assign-source|");
+      VF_CHECK(sk[a]->get_maximum_error() == sk[b]->get_maximum_error() && sk[a]->get_num_active_items() == sk[b]->get_num_active_items() && sk[a]->get_epsilon() == sk[b]->get_epsilon(),
+               K + "assign|assignee-diverges-from-source-under-identical-updates", G().cur_desc);
+    }
+  }
   std::vector<size_t> alive(sk.size());
   for (size_t i = 0; i < alive.size(); ++i) alive[i] = i;
   while (alive.size() > 1) {
